@@ -563,19 +563,23 @@ class Interp:
             # frames between the raise and this frame
             bt = [self.frame_line(f) for f in reversed(self.frames[depth - 1:])]
             saved = self.frames[depth - 1].line
-            del self.frames[depth:]
             self.unwinds += 1
             inst = e.inst
             for var, clsname, body in s.b:
                 if clsname:
                     c = env.lookup(clsname)
                     if c is None or not c.defined:
+                        del self.frames[depth:]
                         raise self.rt_error('RuntimeError', 'Undefined variable ' + clsname)
                     cls = c.v
                     if not isinstance(cls, LyClass) or not cls.is_subclass(self.error_class):
+                        del self.frames[depth:]
                         raise self.rt_error('TypeError', 'Catch block must be blank or a subclass of Error.')
                     if not inst.cls.is_subclass(cls):
                         continue
+                # only a matching clause discards the frames above this one; a handler that is searched and does
+                # not match leaves the call chain of the error untouched
+                del self.frames[depth:]
                 inst.f['backTrace'] = LyTuple(bt)
                 cenv = Env(env)
                 cenv.vars[var] = Cell(inst)
